@@ -384,6 +384,11 @@ func c04Functions(c *Ctx, r *rand.Rand) []*c04Fn {
 					}
 					add(&c04Fn{T: t, Op: op, Pos: "variadic-param-consts", Arity: 0, Fixed: "a", X: k1, Y: k2, HasY: true},
 						fmt.Sprintf("func FN_v(xs ...%s) any { return xs[0] %s xs[1] }\nfunc FN() any { return FN_v(%s, %s) }", t, op, constLit(k1), constLit(k2)))
+					// a group of names sharing the type, followed by parameters of other types
+					add(&c04Fn{T: t, Op: op, Pos: "grouped-param-consts", Arity: 0, Fixed: "a", X: k1, Y: k2, HasY: true},
+						fmt.Sprintf("func FN_g(x, y %s, f float64, s string) any { return x %s y }\nfunc FN() any { return FN_g(%s, %s, 0.5, \"s\") }", t, op, constLit(k1), constLit(k2)))
+					add(&c04Fn{T: t, Op: op, Pos: "grouped-param-consts-2", Arity: 0, Fixed: "a", X: k1, Y: k2, HasY: true},
+						fmt.Sprintf("func FN_h(s string, x, y %s, ok bool) any { return x %s y }\nfunc FN() any { return FN_h(\"s\", %s, %s, true) }", t, op, constLit(k1), constLit(k2)))
 					add(&c04Fn{T: t, Op: op, Pos: "param-consts", Arity: 0, Fixed: "a", X: k1, Y: k2, HasY: true},
 						fmt.Sprintf("func FN_p(x, y %s) any { return x %s y }\nfunc FN() any { return FN_p(%s, %s) }", t, op, constLit(k1), constLit(k2)))
 				}
